@@ -190,14 +190,15 @@ carquet_status_t parquet_write_file_metadata(const parquet_file_metadata_t *meta
   (void)error;
   __CPROVER_precondition(__CPROVER_r_ok(metadata, sizeof(*metadata)), "metadata readable");
   __CPROVER_precondition(buffer->data == NULL && buffer->size == 0, "serialiser gets an initialised empty buffer");
-  if (nondet_bool()) {                 /* may append (also when it then fails) */
+  int st = nondet_int();
+  if (st == CARQUET_OK || nondet_bool()) {   /* OK => at least one byte appended; may append also when it then fails */
     size_t n = nondet_size_t();
     __CPROVER_assume(n >= 1 && n <= CQV_MAXBUF);
     buffer->data = malloc(n);
     __CPROVER_assume(buffer->data != NULL);
     buffer->size = n; buffer->capacity = n;
   }
-  return (carquet_status_t)nondet_int();
+  return (carquet_status_t)st;
 }
 
 /* ---- writer object in an arbitrary state satisfying the representation invariant ---------- */
@@ -350,6 +351,8 @@ void h_close_io(void) {
   _Bool owns, had_rg;
   uint64_t req0 = G_bytes_requested, acc0 = G_bytes_accepted;
   carquet_status_t st = run_close(&owns, &had_rg);
+  int cex_owns = owns;              /* named input of replay/direct/writer_close.c */
+  (void)cex_owns;
   __CPROVER_assert(st != CARQUET_OK || !G_io_failed, "close returns OK => no fwrite/fflush/fclose on the sink reported failure");
   __CPROVER_assert(st != CARQUET_OK || G_bytes_accepted - acc0 == G_bytes_requested - req0, "close returns OK => every requested byte accepted");
   __CPROVER_assert(st != CARQUET_OK || !G_dirty, "close returns OK => accepted bytes were flushed successfully (fflush/fclose)");
